@@ -32,7 +32,9 @@ Ft == 16                      \* footer
 Sz(n) == 61 + 9 * n           \* bytes of a well-formed batch with n records (harness uses the same layout)
 EmptyMem == [next |-> 0, buf |-> <<>>, flushing |-> FALSE, fb |-> <<>>, segs |-> <<>>]
 NoArt == [base |-> -1, last |-> -1, batches |-> <<>>]
-NoReq == [id |-> <<"none", 0>>, base |-> -1, cnt |-> 0, lod |-> 0, sz |-> 0, kind |-> "ok"]
+\* cnt = the span of offsets the batch claims (lastOffsetDelta + 1 for an accepted batch); msgs = its record count
+NoReq == [id |-> <<"none", 0>>, base |-> -1, cnt |-> 0, msgs |-> 0, lod |-> 0, sz |-> 0, kind |-> "ok"]
+BigLod == 1048575   \* stands for lastOffsetDelta = 2^31-1 (TLC integers are 32-bit: the harness folds offsets x >= 2^31 to (x mod 2^31) + (x div 2^31) * 2^20)
 LastOf(b) == b.base + b.lod
 Log(e) == hist' = Append(hist, e)
 
@@ -54,12 +56,12 @@ Append_(p, sh) ==
   /\ up /\ pc[p] = "idle" /\ sent[p] < K
   /\ sent' = [sent EXCEPT ![p] = @ + 1]
   /\ Log([a |-> "Append", p |-> p, n |-> sh.n, kind |-> sh.kind])
-  /\ IF sh.kind # "ok" /\ FixValidate
+  /\ IF sh.kind \in {"neglod", "concat"} /\ FixValidate
      THEN \* rejected before the log is touched
           /\ pc' = [pc EXCEPT ![p] = "err"] /\ req' = [req EXCEPT ![p] = NoReq]
           /\ UNCHANGED <<mem, art, segUp, idxUp, stage, nextReg, lost>>
-     ELSE LET lod == IF sh.kind = "neglod" THEN -2 ELSE sh.n - 1
-              b == [id |-> <<p, sent[p] + 1>>, base |-> mem.next, cnt |-> sh.n, lod |-> lod,
+     ELSE LET lod == IF sh.kind = "neglod" THEN -2 ELSE IF sh.kind = "maxlod" THEN BigLod ELSE sh.n - 1
+              b == [id |-> <<p, sent[p] + 1>>, base |-> mem.next, cnt |-> IF sh.kind = "maxlod" THEN BigLod + 1 ELSE sh.n, msgs |-> sh.n, lod |-> lod,
                     sz |-> IF sh.kind = "concat" THEN 2 * Sz(sh.n) ELSE Sz(sh.n), kind |-> sh.kind]
               nx == mem.next + lod + 1
               buf1 == Append(mem.buf, b)
@@ -220,7 +222,7 @@ RECURSIVE IdxFrom(_, _, _, _)
 IdxFrom(bs, i, since, acc) ==
   IF i > Len(bs) THEN acc
   ELSE LET add == acc = {} \/ since >= Interval IN
-       IdxFrom(bs, i + 1, (IF add THEN 0 ELSE since) + bs[i].cnt, IF add THEN acc \cup {i} ELSE acc)
+       IdxFrom(bs, i + 1, (IF add THEN 0 ELSE since) + bs[i].msgs, IF add THEN acc \cup {i} ELSE acc)
 IdxSet(bs) == IdxFrom(bs, 1, 0, {})
 MinOf(S) == CHOOSE m \in S : \A x \in S : m <= x
 MaxOf(S) == CHOOSE m \in S : \A x \in S : m >= x
